@@ -35,7 +35,32 @@ type MWorld struct {
 	Code     map[common.Address][]byte
 	Exists   map[common.Address]bool
 	Suicided map[common.Address]bool
-	Logs     []MLog
+	// Touched: accounts touched while empty by frames that have not failed (EIP-161: deleted when the transaction is
+	// finalised)
+	Touched map[common.Address]bool
+	Logs    []MLog
+}
+
+func (w *MWorld) empty(a common.Address) bool {
+	return (w.Balance[a] == nil || w.Balance[a].Sign() == 0) && w.Nonce[a] == 0 && len(w.Code[a]) == 0
+}
+
+// touch records an AddBalance(a, 0) / value transfer reaching a (only empty accounts are marked, as in the StateDB).
+func (w *MWorld) touch(a common.Address) {
+	if w.empty(a) {
+		if w.Touched == nil {
+			w.Touched = map[common.Address]bool{}
+		}
+		w.Touched[a] = true
+	}
+}
+
+// ExistsFinalised tells whether a is an account after the end-of-transaction finalisation.
+func (w *MWorld) ExistsFinalised(a common.Address) bool {
+	if !w.Exists[a] || w.Suicided[a] {
+		return false
+	}
+	return !(w.Touched[a] && w.empty(a))
 }
 
 func (w *MWorld) clone() *MWorld {
@@ -62,6 +87,12 @@ func (w *MWorld) clone() *MWorld {
 	}
 	for a, v := range w.Suicided {
 		n.Suicided[a] = v
+	}
+	if w.Touched != nil {
+		n.Touched = map[common.Address]bool{}
+		for a, v := range w.Touched {
+			n.Touched[a] = v
+		}
 	}
 	n.Logs = append([]MLog{}, w.Logs...)
 	return n
@@ -334,6 +365,7 @@ func (m *model) call(callerFrame *Frame, cx mctx, kind Kind, to common.Address, 
 			}
 			w.Exists[to] = true
 		}
+		w.touch(to) // the transfer's AddBalance reaches the recipient (marks it when it is empty)
 		m.transfer(cx.addr, to, value, n.Index)
 		switch {
 		case to == Precompile:
@@ -401,6 +433,9 @@ func (m *model) call(callerFrame *Frame, cx mctx, kind Kind, to common.Address, 
 			return false, false, nil
 		}
 		snap := w.clone()
+		if kind == KStaticCall {
+			w.touch(to) // StaticCall touches its target with AddBalance(to, 0)
+		}
 		switch {
 		case to == Precompile:
 			return true, false, data
@@ -588,6 +623,8 @@ func (m *model) run(f *Frame, cx mctx) (ok, reverted bool, ret []byte) {
 			to = BadPrecompile
 		case TgAbsent:
 			to = AbsentAddr
+		case TgEmptyAcct:
+			to = EmptyAcct
 		}
 		child := c.Child
 		if c.Target == TgSelf {
@@ -648,7 +685,7 @@ func (m *model) run(f *Frame, cx mctx) (ok, reverted bool, ret []byte) {
 
 // Addresses lists every address the scenario can touch (for state comparison).
 func (r *MResult) Addresses(s *Scn) []common.Address {
-	set := map[common.Address]bool{world.Origin: true, Codeless: true, Precompile: true, BadPrecompile: true, AbsentAddr: true}
+	set := map[common.Address]bool{world.Origin: true, Codeless: true, Precompile: true, BadPrecompile: true, AbsentAddr: true, EmptyAcct: true}
 	s.Walk(func(f *Frame, static bool, depth int, parent *Frame) { set[FrameAddr(f.ID)] = true })
 	for _, n := range r.Nodes {
 		if n.Created != (common.Address{}) {
